@@ -50,6 +50,9 @@ impl IdealGas for CpIdealGas {
 const TOL_PURE: f64 = 1e-9; // pure_t / pure_p stop at |dp| < 1e-12 p resp. |dT| < 1e-12 T; densities follow by one Newton step
 const TOL_BD: f64 = 1e-7; // bubble/dew: ||(dmu, dp)|| < 1e-10 (Newton) in reduced units
 const TOL_FLASH: f64 = 1e-6; // tp_flash: ||ln K update|| < 1e-8; plus 1e-8 / (relative width of the envelope), see flash_tol
+const TOL_CRIT: f64 = 1e-6; // critical points: the Newton iteration stops at |step| < 1e-8 (reduced T, rho); the conditions are degenerate in rho
+/// bubble/dew points under caller-supplied options: the OUTER tolerance (default 1e-10) decides about acceptance
+const BD_OPT_FACTOR: f64 = 300.0;
 const TOL_STATE: f64 = 1e-8; // density iteration (relative 1e-10..1e-12) and Newton on T (|dT| < 1e-8 K) incl. the inner density iteration; worst observed 5.8e-10
 
 fn err_kind(e: &EosError) -> String {
@@ -422,6 +425,40 @@ fn pure_systems(full: bool) -> Vec<Sys> {
         let eos = pcsaft(&[n]);
         if let Some(tc) = tc_of(&eos) {
             v.push(Sys { name: format!("pcsaft_{n}"), eos, tc: vec![tc] });
+        }
+    }
+    v
+}
+
+/// SAFT-VR Mie records (several of them have a second, unphysical solution of the criticality conditions)
+fn saftvrmie_systems(full: bool) -> Vec<Sys> {
+    let names: &[&str] = if full {
+        &["methane", "ethane", "propane", "n-butane", "pentane", "hexane", "heptane", "octane", "nonane", "decane", "dodecane", "pentadecane", "eicosane", "carbon dioxide", "benzene", "toluene"]
+    } else {
+        &["hexane", "decane", "toluene", "propane"]
+    };
+    let mut v = Vec::new();
+    for n in names {
+        let eos = Arc::new(ResidualModel::SaftVRMie(configs::saftvrmie(&[n])));
+        if let Some(tc) = tc_of(&eos) {
+            v.push(Sys { name: format!("saftvrmie_{n}"), eos, tc: vec![tc] });
+        }
+    }
+    v
+}
+
+/// wide-boiling pairs (still inside the window T_c ratio < 1.8): the composition of the incipient phase is sensitive
+/// to where the outer loop stops
+const WIDE_QUICK: &[(&str, &str)] = &[("ethane", "hexane"), ("propane", "decane")];
+const WIDE_FULL: &[(&str, &str)] = &[("ethane", "hexane"), ("propane", "decane"), ("butane", "decane"), ("ethane", "pentane"), ("propane", "octane"), ("methane", "ethane")];
+
+fn wide_systems(full: bool) -> Vec<Sys> {
+    let mut v = Vec::new();
+    for (a, b) in if full { WIDE_FULL } else { WIDE_QUICK } {
+        if let (Some(tca), Some(tcb)) = (tc_of(&pcsaft(&[a])), tc_of(&pcsaft(&[b]))) {
+            if tca.max(tcb) / tca.min(tcb) < 1.8 {
+                v.push(Sys { name: format!("pcsaft_{a}_{b}"), eos: pcsaft(&[a, b]), tc: vec![tca, tcb] });
+            }
         }
     }
     v
@@ -1322,11 +1359,168 @@ fn main() {
         }
     }
 
+    // ---------------------------------------------------------------- G. critical points with an initial temperature
+    let crit_state = |r: &Result<State<Eos>, String>| {
+        r.as_ref()
+            .map(|s| vec![s.temperature.to_reduced(), s.pressure(Contributions::Total).to_reduced(), s.density.to_reduced()])
+            .map_err(|e| e.clone())
+    };
+    let mut crit_ties: Vec<Value> = Vec::new();
+    let mut crit_coq = String::new();
+    let mut rejected: Vec<Value> = Vec::new();
+    let n_crit = if full { 40 } else { 12 };
+    let vrmie = saftvrmie_systems(full);
+    for sys in pures.iter().chain(vrmie.iter()) {
+        if let Some(o) = &only {
+            if !sys.name.contains(o.as_str()) {
+                continue;
+            }
+        }
+        let tc = sys.tc[0];
+        let crit = |t0: Option<f64>| guard(|| State::critical_point(&sys.eos, None, t0.map(Temperature::from_reduced), SolverOptions::default()));
+        let alone = crit(None);
+        // the guess-free call is the first success of the trial temperatures 300, 700, 500 K (public API only)
+        let trials: Vec<_> = [300.0, 700.0, 500.0].iter().map(|t| crit(Some(*t))).collect();
+        let oks: Vec<bool> = trials.iter().map(|r| r.is_ok()).collect();
+        let observed = match &alone {
+            Ok(a) => trials.iter().position(|r| {
+                r.as_ref().map(|s| s.temperature.to_reduced().to_bits() == a.temperature.to_reduced().to_bits() && s.density.to_reduced().to_bits() == a.density.to_reduced().to_bits()).unwrap_or(false)
+                    && true
+            }).map(|i| i as i64).unwrap_or(-2),
+            Err(_) => -1,
+        };
+        // the first success must be the one returned: position() already returns the first bitwise match; make sure no earlier trial succeeded
+        let first_ok = oks.iter().position(|b| *b).map(|i| i as i64).unwrap_or(-1);
+        let name = format!("crit:{}", sys.name);
+        crit_coq += &format!("Eval vm_compute in (\"CRIT\", \"{}\", Tie.crit_first {} {} {}).\n", name, oks[0], oks[1], oks[2]);
+        crit_ties.push(json!({"name": name, "system": sys.name, "trial_ok": oks, "observed": observed, "first_ok": first_ok,
+            "call": "State::critical_point(eos, None, None, default) vs Some(300 K), Some(700 K), Some(500 K)"}));
+        for r in trials.iter().chain(std::iter::once(&alone)) {
+            if let Ok(s) = r {
+                if !(s.pressure(Contributions::Total).to_reduced() > 0.0) {
+                    rejected.push(json!({"key": {"system": sys.name, "call": "State::critical_point (trial temperature or none)"}, "result": crit_state(r).unwrap(),
+                        "broken": "a returned critical point of a pure substance has non-positive pressure (acceptance test: crit_accepted)"}));
+                }
+            }
+        }
+        for k in 0..n_crit {
+            // stratified over the factor-3 window, lower end included
+            let f = if k == 0 { 0.35 } else if k == 1 { 2.9 } else { rng.log_range(1.0 / 3.0, 3.0) };
+            let with = crit(Some(f * tc));
+            let key = json!({"system": sys.name, "T_c": tc, "factor": f, "initial_temperature": f * tc, "call": "State::critical_point(eos, None, Some(f T_c), default)"});
+            if let Ok(s) = &with {
+                if !(s.pressure(Contributions::Total).to_reduced() > 0.0) {
+                    rejected.push(json!({"key": key, "result": crit_state(&with).unwrap(), "stand_alone": crit_state(&alone).ok(),
+                        "broken": "a returned critical point of a pure substance has non-positive pressure (acceptance test: crit_accepted)"}));
+                    continue;
+                }
+            }
+            st.cmp("State::critical_point(None, Some(f T_c)) vs no initial temperature", key, &crit_state(&with), &crit_state(&alone), TOL_CRIT);
+        }
+        // the same guess through PhaseDiagram::pure(.., critical_temperature)
+        for f in [rng.range(0.35, 0.6), rng.range(0.8, 1.5)] {
+            let tmin = Temperature::from_reduced(0.6 * tc);
+            let dv = |r: &Result<PhaseDiagram<Eos, 2>, String>| r.as_ref().map(|d| d.states.iter().flat_map(vle_vec).collect::<Vec<f64>>()).map_err(|e| e.clone());
+            let with = guard(|| PhaseDiagram::pure(&sys.eos, tmin, 5, Some(Temperature::from_reduced(f * tc)), SolverOptions::default()));
+            let none = guard(|| PhaseDiagram::pure(&sys.eos, tmin, 5, None, SolverOptions::default()));
+            st.cmp("PhaseDiagram::pure(.., critical_temperature = Some(f T_c)) vs None", json!({"system": sys.name, "T_c": tc, "factor": f, "T_min": 0.6 * tc, "npoints": 5}), &dv(&with), &dv(&none), TOL_CRIT);
+        }
+    }
+    // mixtures: critical point at fixed composition with an initial temperature
+    for sys in &bins {
+        if let Some(o) = &only {
+            if !sys.name.contains(o.as_str()) {
+                continue;
+            }
+        }
+        for _ in 0..(if full { 10 } else { 3 }) {
+            let x1 = rng.range(0.1, 0.9);
+            let m = Moles::from_reduced(arr1(&[x1, 1.0 - x1]));
+            let alone = guard(|| State::critical_point(&sys.eos, Some(&m), None, SolverOptions::default()));
+            if let Ok(a) = &alone {
+                let tcm = a.temperature.to_reduced();
+                for _ in 0..3 {
+                    let f = rng.log_range(0.5, 2.0);
+                    let with = guard(|| State::critical_point(&sys.eos, Some(&m), Some(Temperature::from_reduced(f * tcm)), SolverOptions::default()));
+                    st.cmp("State::critical_point(moles, Some(f T_c,mix)) vs no initial temperature", json!({"system": sys.name, "x1": x1, "T_c_mix": tcm, "factor": f}), &crit_state(&with), &crit_state(&alone), TOL_CRIT);
+                }
+            }
+        }
+    }
+
+    // ---------------------------------------------------------------- H. caller-supplied solver options (inner, outer) for bubble / dew points
+    let wides = wide_systems(full);
+    let n_opt = if full { 60 } else { 12 };
+    let inner_tols = [Some(1e-2), Some(1e-4), Some(1e-6), None];
+    let inner_iters = [None, Some(1usize), Some(2), Some(3)];
+    let outer_tols = [None, None, Some(1e-9), Some(1e-8)];
+    for sys in bins.iter().chain(wides.iter()) {
+        if let Some(o) = &only {
+            if !sys.name.contains(o.as_str()) {
+                continue;
+            }
+        }
+        let tl = sys.tc[0].min(sys.tc[1]);
+        for k in 0..n_opt {
+            let t = tl * rng.range(0.6, 0.95);
+            let x1 = rng.range(0.05, 0.95);
+            let it = inner_tols[k % 4];
+            let ii = inner_iters[(k / 4) % 4];
+            let ot = outer_tols[rng.below(4)];
+            let mut oi = SolverOptions::new();
+            if let Some(v) = it {
+                oi = oi.tol(v);
+            }
+            if let Some(v) = ii {
+                oi = oi.max_iter(v);
+            }
+            let mut oo = SolverOptions::new();
+            if let Some(v) = ot {
+                oo = oo.tol(v);
+            }
+            let opts = (oi, oo);
+            let tol = BD_OPT_FACTOR * ot.unwrap_or(1e-10);
+            let okey = json!({"inner_tol": it, "inner_max_iter": ii, "outer_tol": ot});
+            let xs = arr1(&[x1, 1.0 - x1]);
+            for bubble in [true, false] {
+                let call = |p0: Option<f64>, y0: Option<&Array1<f64>>, o: (SolverOptions, SolverOptions)| {
+                    guard(|| {
+                        if bubble {
+                            PhaseEquilibrium::bubble_point(&sys.eos, Temperature::from_reduced(t), &xs, p0.map(Pressure::from_reduced), y0, o)
+                        } else {
+                            PhaseEquilibrium::dew_point(&sys.eos, Temperature::from_reduced(t), &xs, p0.map(Pressure::from_reduced), y0, o)
+                        }
+                    })
+                };
+                let what = if bubble { "bubble_point" } else { "dew_point" };
+                let reference = call(None, None, opts2());
+                let alone = call(None, None, opts);
+                let key = json!({"system": sys.name, "T": t, "spec_x1": x1, "options_(inner,outer)": okey});
+                st.cmp(&format!("{what}(T, x, None, None, (inner, outer) options) vs default options"), key.clone(), &vv(&alone), &vv(&reference), tol);
+                if let Ok(r) = &reference {
+                    let p = r.vapor().pressure(Contributions::Total).to_reduced();
+                    let f = rng.log_range(1.0 / 3.0, 3.0);
+                    let other = if bubble { r.vapor().molefracs.clone() } else { r.liquid().molefracs.clone() };
+                    // initial composition: half way between the specified phase and the solution
+                    let y0 = arr1(&[0.5 * (other[0] + x1), 1.0 - 0.5 * (other[0] + x1)]);
+                    let mut key2 = key.clone();
+                    key2["factor"] = json!(f);
+                    let with = call(Some(p * f), None, opts);
+                    st.cmp(&format!("{what}(T, x, Some(f p), None, (inner, outer) options) vs default options without guess"), key2.clone(), &vv(&with), &vv(&reference), tol);
+                    let with = call(Some(p * f), Some(&y0), opts);
+                    st.cmp(&format!("{what}(T, x, Some(f p), Some(y0), (inner, outer) options) vs default options without guess"), key2, &vv(&with), &vv(&reference), tol);
+                }
+            }
+        }
+    }
+
     // ---------------------------------------------------------------- output
-    std::fs::write(format!("{}/tie.v", cli.out), emit_tie(&ties, &singles)).unwrap();
+    std::fs::write(format!("{}/tie.v", cli.out), emit_tie(&ties, &singles) + &crit_coq).unwrap();
     let out = json!({
         "dew_lines": dew_lines,
         "driver_errors": panics,
+        "crit_ties": crit_ties,
+        "rejected_results": rejected,
         "ties": ties.iter().map(tie_json).collect::<Vec<_>>(),
         "singles": singles.iter().map(|(n, k, c)| json!({"name": n, "kind": k.solver(), "call": call_json(c, 0)})).collect::<Vec<_>>(),
         "support": {
@@ -1334,8 +1528,9 @@ fn main() {
             "both_failed": st.both_fail, "worst_rel_diff_within_tol": st.worst,
             "by_kind": st.by_kind.iter().map(|(k, v)| json!({"what": k, "comparisons": v.0, "both_converged": v.1, "worst_rel_diff": v.2})).collect::<Vec<_>>(), "failures": st.failures, "notes": st.notes, "samples": st.samples,
             "missing_points": missing, "dropped_points_no_fallback_by_design": dropped, "grid_comparisons": grid_cmp,
-            "tolerances": {"pure": TOL_PURE, "bubble_dew": TOL_BD, "tp_flash": TOL_FLASH, "state": TOL_STATE},
-            "systems": {"pure": pures.iter().map(|s| s.name.clone()).collect::<Vec<_>>(), "binary": bins.iter().map(|s| s.name.clone()).collect::<Vec<_>>()},
+            "tolerances": {"pure": TOL_PURE, "bubble_dew": TOL_BD, "tp_flash": TOL_FLASH, "state": TOL_STATE, "critical_point": TOL_CRIT, "bubble_dew_with_options": "300 x outer tolerance"},
+            "systems": {"pure": pures.iter().map(|s| s.name.clone()).collect::<Vec<_>>(), "binary": bins.iter().map(|s| s.name.clone()).collect::<Vec<_>>(),
+                "critical_point_extra": vrmie.iter().map(|s| s.name.clone()).collect::<Vec<_>>(), "wide_boiling": wides.iter().map(|s| s.name.clone()).collect::<Vec<_>>()},
         },
     });
     cli.write_impl(&out);
